@@ -146,6 +146,9 @@ def checkFlushRound (ws : List Watcher) (recs : List Rec) (calls : List (Nat × 
               some s!"flush: changes-only watcher {wid} also received the unchanged event of {extra.map (·.name)} queued on behalf of another watcher"
             else
               some s!"flush: watcher {wid} received events for {got}, qualifying parameters {want}"
+          else if evs.any (fun e => e.what != w.what) then
+            -- a watcher of the value is told about the value, a watcher of a Parameter attribute about that attribute
+            some s!"flush: watcher {wid} (what = {w.what}) received an event of another kind {evs.map (·.what)}"
           else evs.findSome? fun e =>
             -- the most recent assignment of that parameter that raised an event for somebody (an
             -- assignment inside `discard_events`, or a same-value one nobody listens to, raises none)
